@@ -81,8 +81,9 @@ ASSUMPTIONS = ['the format holds values to 6 and dt to 4 decimals: "same to nd d
                'requested type is judged exactly: Signal requested -> type is Signal (not the subclass AccSignal)',
                'a save that raises is outside the quantifier, but the record the path held before it is not: the loads that '
                'follow are judged against that record (clause refused-save.leaves-previous-record). One mechanism is only '
-               'counted until it is ruled on (observation "pending-finding: non-str-label-save-empties-file"): a label that '
-               'is not a str makes the clean writer raise after open(ffp, "w") has emptied the file',
+               'counted (coordinator ruling: the statement says what a load returns after a save of a signal with a label; a '
+               'label that is not a str is no label of the format and nothing is promised about a path after such a call): '
+               'it makes the clean writer raise after open(ffp, "w") has emptied the file',
                'the object a loader returns is an ordinary Signal: copy.copy / copy.deepcopy / a pickle round trip of it give '
                'the same type, npts, dt, values (bit for bit) and label (clause loaded-object.copy/deepcopy/pickle==loaded)',
                'results depend on the arguments only: the same loader call on the same saved record returns the same bits '
@@ -440,7 +441,7 @@ def _post_save(args, kwargs, result, pre):
         _recheck_held(key)
 
 
-PENDING_LABEL = 'pending-finding: non-str-label-save-empties-file'
+PENDING_LABEL = 'ruled outside the statement: a save with a label that is not a str raises after the file was opened for writing (previous content lost)'
 
 
 def _save_failed(args, kwargs, exc, pre):
@@ -585,7 +586,7 @@ def _model(key):
         CTX.observe('load-of-a-file-not-saved-under-monitoring')
         return None, None
     if e.get('after_refused_save') and e.get('refused_label_not_str'):
-        CTX.observe(PENDING_LABEL)       # not judged until ruled on (see _save_failed)
+        CTX.observe(PENDING_LABEL)       # ruled outside the statement (see _save_failed)
         return None, e
     if e['saved'] is None:
         CTX.observe('load-after-failed-save')
@@ -1151,7 +1152,7 @@ def _execute(eqsig, ctx, op, path):
                 return None
         if ent.get('after_refused_save') and k.startswith('load_'):
             if ent.get('refused_label_not_str'):
-                ctx.observe(PENDING_LABEL)        # not judged until ruled on (see _save_failed)
+                ctx.observe(PENDING_LABEL)        # ruled outside the statement (see _save_failed)
                 return None
             if ent.get('saved') is not None and _expected(ent['saved']) is not None:
                 ctx.exception('refused-save.leaves-previous-record', _witness(_key(path), failed_op=k), e)
